@@ -229,7 +229,10 @@ def digests(d, tag):
         cands = sh(f"find {iso}/target/dbg-sep -maxdepth 3 -name lexmc -type f").stdout.split()
         binary = cands[0] if cands else binary
     out = os.path.join(iso, f"digest_{tag}.txt")
-    p = sh([binary, "digest", "--spaces", DIGEST_SPACES, "--tier", "quick", "--out", out])
+    try:
+        p = sh([binary, "digest", "--spaces", DIGEST_SPACES, "--tier", "quick", "--out", out], timeout=300)
+    except subprocess.TimeoutExpired:
+        return None  # a mutant that makes the lexer loop: certainly a behaviour change
     if p.returncode != 0:
         return None
     lst = os.path.join(iso, "list.json")
@@ -240,7 +243,10 @@ def digests(d, tag):
         except Exception:
             ts = []
         json.dump(xs + ts, open(lst, "w"))
-    p2 = sh([binary, "digest-list", "--inputs", lst])
+    try:
+        p2 = sh([binary, "digest-list", "--inputs", lst], timeout=300)
+    except subprocess.TimeoutExpired:
+        return None
     h = hashlib.sha1(open(out, "rb").read() + "\n".join(l for l in p2.stdout.split("\n") if l.startswith("D:")).encode()).hexdigest()
     return h
 
@@ -297,19 +303,17 @@ def checks(k=0, n=1):
                 classified[x["id"]] = x["same"]
         except FileNotFoundError:
             pass
-        for m in survivors():
-            if m["id"] in classified:
-                continue
-            revert(d)
-            apply(d, m)
-            dg = digests(d, "mut")
-            revert(d)
-            classified[m["id"]] = dg == base
-            append(cls, {"id": m["id"], "same": dg == base, "ok": dg is not None})
-            print("class", m["id"], dg == base, flush=True)
-            progressed = True
         done = done_ids(res)
         for m in survivors():
+            if m["id"] not in classified:
+                revert(d)
+                apply(d, m)
+                dg = digests(d, "mut")
+                revert(d)
+                classified[m["id"]] = dg == base
+                append(cls, {"id": m["id"], "same": dg == base, "ok": dg is not None})
+                print("class", m["id"], dg == base, flush=True)
+                progressed = True
             if m["id"] not in done and classified.get(m["id"]) is False:
                 run_checks(m, ALL, False)
                 progressed = True
